@@ -380,3 +380,15 @@ PLAN["C01"]["units"] = PLAN["C01"]["units"] + [PWR + "handle"]
 # C18 "a request head still incomplete after h11_max_incomplete_size bytes is rejected": every read
 # is followed by the event loop in which h11 checks the limit
 PLAN["C18"]["units"] = PLAN["C18"]["units"] + [H1P + "handle"]
+# C13 "served as HTTP/2 stream 1 ... no client byte is lost": the request the switch carries over
+PLAN["C13"]["units"] = PLAN["C13"]["units"] + ["hypercorn.protocol.h11:H2CProtocolRequiredError.__init__"]
+# C10 "messages the application sends reach the client ... in order", over HTTP/2: the send path
+PLAN["C10"]["units"] = PLAN["C10"]["units"] + [HP + "_send_data", HP + "stream_send", SB + "pop", SB + "push"]
+PLAN["C10"]["trusted_base"] = PLAN["C10"]["trusted_base"] + LIB_H2
+# C15 "then cancels what remains": the application task can be cancelled on its way out
+PLAN["C15"]["units"] = PLAN["C15"]["units"] + [ATG + "_handle", TTG + "_handle"]
+# C08 "an application's send completes only as fast as the client accepts data", for a WSGI application:
+# the thread-to-loop bridge waits for each send
+PLAN["C08"]["units"] = PLAN["C08"]["units"] + [ATG + "TaskGroup.spawn_app", TTG + "TaskGroup.spawn_app"]
+# C16: StreamBuffer's events are cleared only by the task that waits on them (trio's clear() replaces the event)
+PLAN["C16"]["units"] = PLAN["C16"]["units"] + [SB + m for m in ("pop", "push", "close", "set_complete", "drain")]
